@@ -1,0 +1,85 @@
+//! Verification hook (cargo feature `beff_verif`, off by default).
+//!
+//! On non-wasm targets the `#[wasm_bindgen]` host imports abort, so with the feature on they are
+//! replaced by a thread-local, injectable host. The entry points below are thin wrappers over the
+//! very same `*_inner` functions and the same `LazyFileManager` / `BUNDLER` cache that the
+//! wasm-exported functions use. Nothing here is compiled when the feature is off.
+use std::cell::RefCell;
+
+type ReadFn = Box<dyn FnMut(&str) -> Option<String>>;
+type ResolveFn = Box<dyn FnMut(&str, &str) -> Option<String>>;
+
+struct Host {
+    read: Option<ReadFn>,
+    resolve: Option<ResolveFn>,
+    diagnostics: Vec<String>,
+}
+
+thread_local! {
+    static HOST: RefCell<Host> = RefCell::new(Host { read: None, resolve: None, diagnostics: vec![] });
+}
+
+pub(crate) fn read_file_content(file_name: &str) -> Option<String> {
+    let f = HOST.with(|h| h.borrow_mut().read.take());
+    let mut f = f?;
+    let r = f(file_name);
+    HOST.with(|h| h.borrow_mut().read = Some(f));
+    r
+}
+
+pub(crate) fn resolve_import(current_file: &str, specifier: &str) -> Option<String> {
+    let f = HOST.with(|h| h.borrow_mut().resolve.take());
+    let mut f = f?;
+    let r = f(current_file, specifier);
+    HOST.with(|h| h.borrow_mut().resolve = Some(f));
+    r
+}
+
+pub(crate) fn emit_diagnostic_str(diag: String) {
+    HOST.with(|h| h.borrow_mut().diagnostics.push(diag));
+}
+
+/// Install the host callbacks of the current thread (= the current compiler session).
+pub fn set_host(read: ReadFn, resolve: ResolveFn) {
+    HOST.with(|h| {
+        let mut h = h.borrow_mut();
+        h.read = Some(read);
+        h.resolve = Some(resolve);
+    });
+}
+
+/// Diagnostics passed to `emit_diagnostic` since the last call (serialized `WasmDiagnostic`s).
+pub fn take_emitted_diagnostics() -> Vec<String> {
+    HOST.with(|h| std::mem::take(&mut h.borrow_mut().diagnostics))
+}
+
+/// `bundle_to_string_v2` without the `JsValue` wrapping.
+pub fn bundle_to_string(parser_entry_point: &str, settings: &str) -> Result<String, String> {
+    crate::bundle_to_string_inner(crate::parse_entrypoints(parser_entry_point, settings))
+        .map_err(|e| e.to_string())
+}
+
+/// `bundle_to_diagnostics` without the `JsValue` wrapping.
+pub fn bundle_to_diagnostics(parser_entry_point: &str, settings: &str) -> String {
+    let v = crate::bundle_to_diagnostics_inner(crate::parse_entrypoints(parser_entry_point, settings));
+    serde_json::to_string(&v).expect("should be able to serialize diagnostics")
+}
+
+/// `update_file_content`.
+pub fn update_file_content(file_name: &str, content: &str) {
+    crate::update_file_content_inner(file_name, content)
+}
+
+/// Observation only: the session cache as (file name, source text of the cached module), sorted.
+pub fn cache_fingerprint() -> Vec<(String, String)> {
+    crate::BUNDLER.with(|b| {
+        let b = b.borrow();
+        let mut v: Vec<(String, String)> = b
+            .files
+            .iter()
+            .map(|(k, m)| (k.to_string(), m.module.fm.src.to_string()))
+            .collect();
+        v.sort();
+        v
+    })
+}
